@@ -363,22 +363,25 @@ def create_standard_torchscript_polyglot(
     torchscript_file = [file[0] for file in files if file[1] == "TorchScript v1.4"][0]
     if polyglot_file_name is None:
         polyglot_file_name = "polyglot.pt"
-    shutil.copy(standard_pytorch_file, polyglot_file_name)
 
     with zipfile.ZipFile(torchscript_file, "r") as zip_b:
         constants_pkl_path = check_and_find_in_zip(
             zip_b, "constants.pkl", check_extension=False, return_path=True
         )
         version_path = check_and_find_in_zip(zip_b, "version", return_path=True)
-        if constants_pkl_path and version_path:
-            zip_b.extract(constants_pkl_path, "temp")
-            zip_b.extract(version_path, "temp")
+        if not (constants_pkl_path and version_path):
+            # Nothing to combine; do not leave a partial polyglot behind
+            return False
+        zip_b.extract(constants_pkl_path, "temp")
+        zip_b.extract(version_path, "temp")
 
-    with zipfile.ZipFile(polyglot_file_name, "a") as zip_out:
-        zip_out.write(f"temp/{constants_pkl_path}", "constants.pkl")
-        zip_out.write(f"temp/{version_path}", "version")
-
-    shutil.rmtree("temp")
+    try:
+        shutil.copy(standard_pytorch_file, polyglot_file_name)
+        with zipfile.ZipFile(polyglot_file_name, "a") as zip_out:
+            zip_out.write(f"temp/{constants_pkl_path}", "constants.pkl")
+            zip_out.write(f"temp/{version_path}", "version")
+    finally:
+        shutil.rmtree("temp")
     polyglot_found = True
     return polyglot_found
 
@@ -400,35 +403,43 @@ def create_polyglot(first_file, second_file, polyglot_file_name=None, print_resu
     polyglot_found = False
     temp_first_file = "temp_" + os.path.basename(first_file)
     temp_second_file = "temp_" + os.path.basename(second_file)
-    shutil.copy(first_file, temp_first_file)
-    shutil.copy(second_file, temp_second_file)
-    files = [
-        (temp_first_file, identify_pytorch_file_format(temp_first_file)[0]),
-        (temp_second_file, identify_pytorch_file_format(temp_second_file)[0]),
-    ]
-    formats = set(map(lambda x: x[1], files))  # noqa
-    if {"PyTorch model archive format", "PyTorch v0.1.10"}.issubset(formats):
-        if polyglot_file_name is None:
-            polyglot_file_name = "polyglot.mar.pt"
-        polyglot_found = create_mar_legacy_pickle_polyglot(files, print_results, polyglot_file_name)
-    if {"PyTorch v1.3", "TorchScript v1.4"}.issubset(formats):
-        if polyglot_file_name is None:
-            polyglot_file_name = "polyglot.pt"
-        polyglot_found = create_standard_torchscript_polyglot(
-            files, print_results, polyglot_file_name
-        )
-    if {"PyTorch model archive format", "PyTorch v0.1.1"}.issubset(formats):
-        if polyglot_file_name is None:
-            polyglot_file_name = "polyglot.mar.tar"
-        polyglot_found = create_mar_legacy_tar_polyglot(files, print_results, polyglot_file_name)
-    if print_results:
-        if polyglot_found is False:
-            print(
-                """Fickling was not able to create any polyglots.
-                  If you think this is a mistake, raise an issue on our GitHub."""
+    try:
+        shutil.copy(first_file, temp_first_file)
+        shutil.copy(second_file, temp_second_file)
+        files = [
+            (temp_first_file, identify_pytorch_file_format(temp_first_file)[0]),
+            (temp_second_file, identify_pytorch_file_format(temp_second_file)[0]),
+        ]
+        formats = set(map(lambda x: x[1], files))  # noqa
+        if {"PyTorch model archive format", "PyTorch v0.1.10"}.issubset(formats):
+            if polyglot_file_name is None:
+                polyglot_file_name = "polyglot.mar.pt"
+            polyglot_found = create_mar_legacy_pickle_polyglot(
+                files, print_results, polyglot_file_name
             )
-        else:
-            print(f"The polyglot is contained in {polyglot_file_name}")
-    os.remove(temp_first_file)
-    os.remove(temp_second_file)
+        if {"PyTorch v1.3", "TorchScript v1.4"}.issubset(formats):
+            if polyglot_file_name is None:
+                polyglot_file_name = "polyglot.pt"
+            polyglot_found = create_standard_torchscript_polyglot(
+                files, print_results, polyglot_file_name
+            )
+        if {"PyTorch model archive format", "PyTorch v0.1.1"}.issubset(formats):
+            if polyglot_file_name is None:
+                polyglot_file_name = "polyglot.mar.tar"
+            polyglot_found = create_mar_legacy_tar_polyglot(
+                files, print_results, polyglot_file_name
+            )
+        if print_results:
+            if polyglot_found is False:
+                print(
+                    """Fickling was not able to create any polyglots.
+                      If you think this is a mistake, raise an issue on our GitHub."""
+                )
+            else:
+                print(f"The polyglot is contained in {polyglot_file_name}")
+    finally:
+        # Always remove the working copies, also when identification or construction raises
+        for temp_file in {temp_first_file, temp_second_file}:
+            if os.path.exists(temp_file):
+                os.remove(temp_file)
     return polyglot_found
